@@ -65,10 +65,18 @@ func runAsm(cfg gmars.SimulatorConfig, text []byte) string {
 
 var presetsText = []gmars.SimulatorConfig{gmars.ConfigNOP94, gmars.ConfigKOTH88, gmars.ConfigICWS88, gmars.ConfigNopNano, gmars.ConfigNop256, gmars.ConfigNopTiny}
 
+// bigCores is set by the listing generator
+var bigCores bool
+
 func textConfig(rng *rand.Rand, legacy bool) gmars.SimulatorConfig {
 	var c gmars.SimulatorConfig
 	for {
 		c = presetsText[rng.Intn(len(presetsText))]
+		if bigCores && rng.Intn(12) == 0 {
+			// listings only: a simulator of that size is allocated (40 bytes per cell)
+			m := []uint64{200001, 400000, 1000003, 1 << 20}[rng.Intn(4)]
+			c = gmars.NewQuickConfig(gmars.ICWS94, gmars.Address(m), 8, 100, 50)
+		}
 		if rng.Intn(3) == 0 {
 			m := uint64(20 + rng.Intn(300))
 			c = gmars.NewQuickConfig(gmars.ICWS94, gmars.Address(m), 8, 100, gmars.Address(1+rng.Intn(int(m/3))))
@@ -232,6 +240,10 @@ func printLoad(rng *rand.Rand, cfg gmars.SimulatorConfig, w gmars.WarriorData, p
 			case 4:
 				lines = append(lines, ";redcode")
 			}
+			if rng.Intn(40) == 0 {
+				// a physical line longer than bufio's 4096-byte buffer
+				lines = append(lines, p(rng.Intn(2))+"; "+strings.Repeat("long comment, with commas; ", 150+rng.Intn(150)))
+			}
 		}
 	}
 	if perturb && rng.Intn(2) == 0 {
@@ -257,6 +269,9 @@ func printLoad(rng *rand.Rand, cfg gmars.SimulatorConfig, w gmars.WarriorData, p
 			in.BMode.String() + p(1) + fieldStr(rng, uint64(in.B), m, perturb) + p(0)
 		if perturb && rng.Intn(6) == 0 {
 			l += p(1) + []string{"; trailing", ";a;b", "; x, y ; z"}[rng.Intn(3)]
+		}
+		if perturb && rng.Intn(150) == 0 {
+			l += p(1) + ";" + strings.Repeat(" padding", 600+rng.Intn(200))
 		}
 		lines = append(lines, l)
 	}
@@ -409,6 +424,8 @@ func genLoadBad(out *bufio.Writer, rng *rand.Rand, count int) int {
 // genListing: C16, LoadCode() of warriors legal in the dialect
 func genListing(out *bufio.Writer, rng *rand.Rand, count int) int {
 	n := 0
+	bigCores = true
+	defer func() { bigCores = false }()
 	for _, legacy := range []bool{false, true} {
 		forms := allForms(legacy)
 		next := 0
